@@ -754,6 +754,76 @@ theorem C11_conservative_history (evs : List Ev) (hp : ∀ e ∈ evs, Ev.conserv
       (evStep ⟨n, sess⟩ e).1.node hne
     exact ⟨Node.keeps_trans hstep g1, g2⟩
 
+/-- an event that can change what a path holds -/
+def Ev.changing : Ev → Prop
+  | .open mode _ => mode ≠ modeReadOnly
+  | .op (.mutate _) => True
+  | .op (.read _) => False
+  | .close => False
+  | .remove => True
+
+/-- **What can change a path, one event at a time**: only an open that is not read-only, a removal,
+or a mutator — and a mutator only through a session whose handle is writable. -/
+theorem C11_step_changes_only (w : World) (e : Ev) (h : (evStep w e).1.node ≠ w.node) :
+    Ev.changing e ∧ (∀ f, e = .op (.mutate f) → ∃ s, w.sess = some s ∧ s.writable = true) := by
+  obtain ⟨node, sess⟩ := w
+  cases e with
+  | «open» mode fid =>
+    refine ⟨?_, fun f hf => by simp at hf⟩
+    intro hro
+    subst hro
+    cases sess with
+    | some s0 => exact h rfl
+    | none =>
+      have hk := (C11_readonly_path node fid).1
+      apply h
+      cases hr : openPath modeReadOnly node fid with
+      | mk n' r =>
+        rw [hr] at hk
+        cases r <;> simp [evStep, hr] <;> exact hk
+  | op o =>
+    cases o with
+    | read r =>
+      exfalso; apply h
+      cases sess with
+      | none => rfl
+      | some s0 => cases node <;> rfl
+    | mutate f =>
+      refine ⟨trivial, fun f' _ => ?_⟩
+      cases sess with
+      | none => exact absurd rfl h
+      | some s0 =>
+        refine ⟨s0, rfl, ?_⟩
+        cases node with
+        | hdf d =>
+          by_cases hro : s0.acc = .rdonly
+          · exfalso; apply h
+            simp only [evStep]
+            rw [step_mut_rdonly s0 hro]
+          · simp [Session.writable, hro]
+        | missing => exact absurd rfl h
+        | blob t e => exact absurd rfl h
+        | dir t => exact absurd rfl h
+  | close =>
+    exfalso; apply h
+    cases sess <;> rfl
+  | remove => exact ⟨trivial, fun f hf => by simp at hf⟩
+
+/-- **What can change a path, over histories**: whenever a history of sessions — any events, any
+modes, any path condition — leaves the path holding something else than before, the history
+contains an open that is not read-only, a removal or a mutator. -/
+theorem C11_history_changes_only (evs : List Ev) (w : World) (h : (evRun w evs).1.node ≠ w.node) :
+    ∃ e ∈ evs, Ev.changing e := by
+  induction evs generalizing w with
+  | nil => exact absurd rfl h
+  | cons e evs ih =>
+    by_cases hs : (evStep w e).1.node = w.node
+    · have h' : (evRun (evStep w e).1 evs).1.node ≠ (evStep w e).1.node := by
+        rw [hs]; exact h
+      obtain ⟨e', he', hc⟩ := ih (evStep w e).1 h'
+      exact ⟨e', List.mem_cons_of_mem _ he', hc⟩
+    · exact ⟨e, List.mem_cons_self .., (C11_step_changes_only w e hs).1⟩
+
 /-- **The id hypothesis is what `uuid4()` delivers.** Every string of the form `8-4-4-4-12` hex
 digits (either case) is accepted as a file id; so `C11_overwrite_fresh` / `C11_missing_creates`
 apply to every id `create_id()` can draw. -/
